@@ -1,0 +1,12 @@
+//go:build verif
+// +build verif
+
+package badger
+
+import "time"
+
+// VerifSetNonceExpire overrides the nonce freshness window / TTL of this store
+// instance (verification hook, only built with -tags verif).
+func (s *badgerStore) VerifSetNonceExpire(d time.Duration) {
+	s.nonceExpire = d
+}
